@@ -529,7 +529,11 @@ func (u *Upgrade) failRelease(rel *release.Release, created kube.ResourceList, e
 
 		rollin := NewRollback(u.cfg)
 		rollin.Version = filteredHistory[0].Version
-		if u.WaitStrategy == kube.HookOnlyStrategy {
+		// RunWithContext has already replaced the hook-only strategy by the status watcher when
+		// atomic is set, so hand the strategy in use on: an empty one makes the rollback fail
+		// with "unknown wait strategy" after it has changed the cluster.
+		rollin.WaitStrategy = u.WaitStrategy
+		if rollin.WaitStrategy == "" || rollin.WaitStrategy == kube.HookOnlyStrategy {
 			rollin.WaitStrategy = kube.StatusWatcherStrategy
 		}
 		rollin.WaitForJobs = u.WaitForJobs
